@@ -594,8 +594,35 @@ fn check_rel_symmetry(t: &mut Tape, ctx: &Ctx) -> Outcome {
             _ => format!("{}", t.range(-3, 3)),
         }
     };
-    let a = pick(t);
-    let b = pick(t);
+    // close neighbours of one small number, in every type: whatever `=` makes of values that
+    // differ in the last place, it makes the same of them in either order
+    let near = |t: &mut Tape, n: i64| -> String {
+        let x32 = n as f32;
+        let x64 = n as f64;
+        let k = 1 + t.below(3) as u32;
+        let s = match t.below(9) {
+            0 => format!("{}", n),
+            1 => format!("{}!", n),
+            2 => format!("{}#", n),
+            3 => format!("{:E}!", f32::from_bits(if x32 == 0.0 { k } else { x32.to_bits() + k })),
+            4 => format!("{:E}!", if x32 == 0.0 { -f32::from_bits(k) } else { f32::from_bits(x32.to_bits() - k) }),
+            5 => format!("{:E}#", f64::from_bits(if x64 == 0.0 { k as u64 } else { x64.to_bits() + k as u64 })),
+            6 => format!("{:E}#", if x64 == 0.0 { -f64::from_bits(k as u64) } else { f64::from_bits(x64.to_bits() - k as u64) }),
+            7 => format!("({}+1E-8)", n),
+            _ => format!("({}-1D-12)", n),
+        };
+        if s.starts_with('-') {
+            format!("({})", s)
+        } else {
+            s
+        }
+    };
+    let (a, b) = if t.chance(1, 3) {
+        let n = *t.pick(&[0i64, 1, -1, 2, -2, 3, 10, 100, 32767, -32768]);
+        (near(t, n), near(t, n))
+    } else {
+        (pick(t), pick(t))
+    };
     let mut term = Term::new();
     let mut out = vec![];
     for (l, r) in [(">", "<"), (">=", "<="), ("<", ">"), ("<=", ">="), ("=", "="), ("<>", "<>")] {
@@ -611,6 +638,10 @@ fn check_rel_symmetry(t: &mut Tape, ctx: &Ctx) -> Outcome {
             return Outcome::fail("relational-not-0-or-minus-1", format!("PRINT {}{}{} gives {:?}", a, l, b, x), format!("{} {} {}", a, l, b));
         }
         out.push(x);
+    }
+    // `<>` is the negation of `=`
+    if !out[4].starts_with('?') && !out[5].starts_with('?') && out[4] == out[5] {
+        return Outcome::fail("equal-and-not-equal-agree", format!("PRINT {}={} and PRINT {}<>{} both give {:?}", a, b, a, b, out[4]), format!("{} = {}", a, b));
     }
     let case = format!("{} ? {} -> {:?}", a, b, out);
     let nan = a.contains("*10") || b.contains("*10");
@@ -672,6 +703,87 @@ fn check_matrix(item: &str, ctx: &Ctx) -> Outcome {
     };
     let vars = vec![(name(a, 0), a.clone()), (name(b, 1), b.clone())];
     let e = E::Bin(op, Box::new(E::Var(vars[0].0.clone())), Box::new(E::Var(vars[1].0.clone())));
+    let case = format!("{}\nPRINT {}", setup_line(&vars), render(&e));
+    match check_tree(&vars, &e, None) {
+        Ok((_, labels)) => {
+            if labels.iter().any(|l| l.starts_with("discarded")) {
+                return Outcome::discard("fuzzy equality zone");
+            }
+            let o = Outcome::pass(true, hash_str(item)).with_labels(labels);
+            if ctx.render {
+                o.with_case(case)
+            } else {
+                o
+            }
+        }
+        Err((c, d)) => Outcome::fail(&c, d, case),
+    }
+}
+
+
+// ------------------------------------------------------------------ function x special value table
+
+fn table_values() -> Vec<Val> {
+    let mut v: Vec<Val> = vec![];
+    for n in [0i16, 1, -1, 2, 255, 32767, -32767, -32768] {
+        v.push(Val::Int(n));
+    }
+    for x in [0.0f32, 0.5, -0.5, 1.5, 2.5, -2.5, 0.25, 32767.5, -32768.5, 32767.49, -32768.49, 32766.5, 16777216.0, 1e-45, 3.4e38, 2.9999998, -1e-30, 88.0, -104.0] {
+        v.push(Val::Sng(x));
+    }
+    for x in [0.0f64, 0.5, -1.5, 2.5, 32767.5, -32768.5, 32767.4999, 32767.9999, -32768.0001, -32768.4999, 2.9999999999, -0.9999999999, 1e-320, 1.7e308, 9007199254740993.0, 709.0, -745.0] {
+        v.push(Val::Dbl(x));
+    }
+    v
+}
+
+const TABLE_FUNCS: usize = 16;
+const TABLE_FORMS: usize = 5;
+
+fn gen_table(part: usize, parts: usize, _th: bool, emit: &mut dyn FnMut(&str)) {
+    let n = table_values().len();
+    let mut idx = 0;
+    for f in 0..TABLE_FUNCS {
+        for a in 0..n {
+            for form in 0..TABLE_FORMS {
+                if idx % parts == part {
+                    emit(&format!("{} {} {}", f, a, form));
+                }
+                idx += 1;
+            }
+        }
+    }
+}
+
+/// Every numeric function (and the two unary operators) applied to the special values of each
+/// type, reached through a variable, its negation and products that give a zero with a sign.
+fn check_table(item: &str, ctx: &Ctx) -> Outcome {
+    let p: Vec<usize> = item.split_whitespace().filter_map(|x| x.parse().ok()).collect();
+    let vals = table_values();
+    if p.len() != 3 || p[0] >= TABLE_FUNCS || p[1] >= vals.len() || p[2] >= TABLE_FORMS {
+        return Outcome::discard("bad item");
+    }
+    let a = &vals[p[1]];
+    let name = match a.ty() {
+        Ty::Int => Name::new("A%"),
+        Ty::Sng => Name::new("C!"),
+        _ => Name::new("E#"),
+    };
+    let vars = vec![(name.clone(), a.clone())];
+    let v = E::Var(name);
+    let lit = |x: &str| E::Lit(x.to_string());
+    let arg = match p[2] {
+        0 => v,
+        1 => E::Neg(Box::new(v)),
+        2 => E::Bin(Bin::Mul, Box::new(v), Box::new(E::Neg(Box::new(lit("1"))))),
+        3 => E::Bin(Bin::Mul, Box::new(lit("0!")), Box::new(v)),
+        _ => E::Bin(Bin::Sub, Box::new(v.clone()), Box::new(v)),
+    };
+    let e = match p[0] {
+        14 => E::Neg(Box::new(E::Paren(Box::new(arg)))),
+        15 => E::Not(Box::new(E::Paren(Box::new(arg)))),
+        f => E::Call(NUMFUNCS[f], vec![arg]),
+    };
     let case = format!("{}\nPRINT {}", setup_line(&vars), render(&e));
     match check_tree(&vars, &e, None) {
         Ok((_, labels)) => {
@@ -760,6 +872,7 @@ Transcendentals and float powers are compared within 2 ulp, everything else exac
         subs: vec![
             Sub::items("literal_typing", gen_literals, check_literal, true),
             Sub::items("operator_matrix", gen_matrix, check_matrix, true),
+            Sub::items("function_table", gen_table, check_table, true),
             Sub::tape("random_trees", check_random_tree, 60_000, 3_000_000, 120),
             Sub::tape("flat_sequences", check_flat, 150_000, 6_000_000, 60),
             Sub::tape("relational_symmetry", check_rel_symmetry, 30_000, 1_000_000, 30),
